@@ -349,7 +349,11 @@ func (r *Run) Finish() {
 			r.res.Distinct[name] = l
 		}
 	}
-	r.res.Completed = true
+	// A test that was failed from outside the monitors (synctest fails the
+	// outer T and ends it via Goexit as soon as the race detector reported
+	// something inside a bubble) has not run all of its cases: the shard must
+	// not count as completed.
+	r.res.Completed = !(r.outPath != "" && r.T.Failed())
 	if r.caseLog != nil {
 		fmt.Fprintf(r.caseLog, "#done\n")
 		r.caseLog.Close()
